@@ -51,6 +51,10 @@ impl State {
 //@use state.fns State::add_reverse_step assumed
 //@use state.fns State::pop_data assumed
 //@use state.fns State::push_data assumed
+//@use state.fns State::data_depth assumed
+//@use state.fns State::top_data assumed
+//@use state.fns State::is_running assumed
+//@use state.fns State::ip assumed
 //@use compile.fns State::code_emit_value
 //@use compile.fns State::run
 //@use compile.fns State::context_close
@@ -313,6 +317,11 @@ pub uninterp spec fn sources_has_name(s: Seq<(Xstr, Xstr)>, name: Xstr) -> bool;
 //@use compile.fns ::build_let_vec
 //@use compile.fns ::build_let_in
 //@use compile.fns ::core_word_let
+
+// small State getters a changed body may start to use (assumed renderings of verified contracts; unit state proves them)
+impl State {
+//@use state.fns State::get_var assumed
+}
 
 } // verus!
 fn main() {}
